@@ -740,6 +740,14 @@ theorem model_effects (fuel : Nat) (c : Cont) (nx : Nat) (op : ContOp) (fs : Lis
       exact ⟨hk.1, fun hn => absurd (by simp [allFields]) hn, fun hn => absurd (by simp [allFields]) hn,
         fun hn => absurd (by simp [allFields]) hn, fun hn => absurd (by simp [allFields]) hn⟩
 
+/-- non-vacuity of `model_effects` (its hypothesis is met by every row of `code_effects`): on a plain DI, `unbind` leaves the
+    annotation cache and the definitions alone -/
+example (fuel : Nat) (c : Cont) (nx : Nat) (r : SymRef) (hl : c.lazy = false) :
+    (stepCont fuel c nx (.unbind r)).1.invocations = c.invocations ∧
+    (stepCont fuel c nx (.unbind r)).1.definitions = c.definitions := by
+  have h := model_effects fuel c nx (.unbind r) [.instances, .injectors] (by rw [hl]; exact code_effects.2.2.2.2.1)
+  exact ⟨h.2.2.2.1 (by decide), h.2.2.2.2 (by decide)⟩
+
 /-- tightness: the model does write each of those dictionaries (so `code_effects` is exactly the model's footprint, not
     an over-approximation of it): bind / unbind on a LazyDI, resolve on a plain DI and through a lazy definition -/
 example :
@@ -771,6 +779,28 @@ theorem containers_own_their_dicts :
     (recOf recs .LazyDI_combine).map (·.newAssigns) = some [(.definitions, true)] ∧
     (recOf recs .LazyDI_instantiate).map (·.newAssigns) = some [] := by
   decide +kernel
+
+/-- `_clone` and `combine` of the model ARE the method bodies of di.py: the translator turns the statements of
+    `DI._clone`, `LazyDI._clone`, `DI.combine`, `LazyDI.combine` (ast) into Lean terms (`{**a, **b}` = `Dict.merge`, the
+    filtering dict comprehension = `Dict.filterKeys`, sequential assignments on the new container), and the hand-written
+    `Cont.clone` / `Cont.combine`, about which `combine_right`, `combine_frame`, `combine_shares` … speak, equal them for all
+    containers. The two error branches are the class guard of `DI.combine` (TypeError) and the missing `__definitions` of
+    a plain DI handed to `LazyDI.combine` (AttributeError). -/
+theorem clone_combine_generated (a b : Cont) :
+    a.clone = (if a.lazy then genCloneLazy a else genCloneDI a) ∧
+    a.combine b = (if !a.lazy && b.lazy then .error .typeError
+      else if a.lazy && !b.lazy then .error .attributeError
+      else .ok (if a.lazy then genCombineLazy a b else genCombineDI genCloneDI a b)) := by
+  cases ha : a.lazy <;> cases hb : b.lazy <;>
+    simp [Cont.clone, Cont.combine, genCloneLazy, genCloneDI, genCombineLazy, genCombineDI, ha, hb]
+
+/-- non-vacuity: the generated combine on two LazyDI containers where the left one has materialised symbol 0 and the right
+    one only defines it: the right definition wins (the witness of 6d5a231) -/
+example :
+    let a := (stepCont 2 ({ lazy := true, definitions := ⟨[(0, .named 1 f0)]⟩ } : Cont) 0 (.resolve s0)).1
+    let b : Cont := { lazy := true, definitions := ⟨[(0, .named 2 f15)]⟩ }
+    (genCombineLazy a b).injectors.get? 0 = none ∧ (genCombineLazy a b).instances.get? 0 = none ∧
+    (genCombineLazy a b).definitions.get? 0 = some (.named 2 f15) := by decide
 
 end DIStateTie
 
